@@ -6,8 +6,8 @@ use serde_json::{json, Value};
 
 use crate::util::*;
 
-const CHARS: [char; 11] = ['a', 'b', 'é', 'Z', '9', ' ', '+', '😀', ';', '.', '✓'];
-const NKEYS: usize = 9 + 11 + 2;
+const CHARS: [char; 12] = ['a', 'b', 'é', 'Z', '9', ' ', '+', '😀', ';', '.', '✓', '\u{a0}'];
+const NKEYS: usize = 9 + 12 + 2;
 
 fn key_of(i: usize) -> (Key, Value) {
     match i {
@@ -20,8 +20,8 @@ fn key_of(i: usize) -> (Key, Value) {
         6 => (Key::CtrlRight, json!({"k": "ctrlright", "c": ""})),
         7 => (Key::Up, json!({"k": "up", "c": ""})),
         8 => (Key::Down, json!({"k": "down", "c": ""})),
-        20 => (Key::Char('\t'), json!({"k": "char", "c": "\t"})),
-        21 => (Key::Char('\u{7f}'), json!({"k": "char", "c": "\u{7f}"})),
+        21 => (Key::Char('\t'), json!({"k": "char", "c": "\t"})),
+        22 => (Key::Char('\u{7f}'), json!({"k": "char", "c": "\u{7f}"})),
         n => {
             let c = CHARS[n - 9];
             (Key::Char(c), json!({"k": "char", "c": c.to_string()}))
@@ -116,7 +116,7 @@ pub fn main(args: &Args) {
                 let h = rng.pick(&histories).clone();
                 let l = 20 + rng.below(180) as usize;
                 let keys: Vec<usize> = (0..l)
-                    .map(|_| if rng.chance(1, 2) { 9 + rng.below(11) as usize } else { rng.below(NKEYS as u64) as usize })
+                    .map(|_| if rng.chance(1, 2) { 9 + rng.below(12) as usize } else { rng.below(NKEYS as u64) as usize })
                     .collect();
                 for e in run_case(&h, &keys) {
                     out.emit(&e);
